@@ -59,6 +59,15 @@ class Rec:
         self.owner = None      # model index holding the (model) lock
         self.deferred = []     # entries to emit once the lock is free again
         self.guard_violations = 0
+        self.completed = {}    # model index -> number of calls that have returned
+        self.stamps = {}       # model index -> per call: [(thread, index of its last returned call)] at invocation
+
+    def invoked(self, i):
+        """real-time stamp of the call thread i invokes now: the calls of other threads that have returned"""
+        self.stamps.setdefault(i, []).append(sorted((j, n - 1) for j, n in self.completed.items() if j != i and n > 0))
+
+    def returned(self, i):
+        self.completed[i] = self.completed.get(i, 0) + 1
 
     def bind(self, i):
         self.idx[threading.get_ident()] = i
@@ -195,6 +204,7 @@ class Scenario:
         out = []
         for call in calls:
             self.rec.begin_call(i, self.nsteps(call), self.sections(call))
+            self.rec.invoked(i)
             try:
                 r = self.do(call)
             except sched.Abandoned:
@@ -202,6 +212,7 @@ class Scenario:
             except Exception as e:      # noqa
                 r = self.on_exception(call, e)
             self.rec.end_call(i)
+            self.rec.returned(i)
             out.append(r)
         return out
 
@@ -243,7 +254,9 @@ class Scenario:
         for i, calls in enumerate(self.case["calls"]):
             while len(res[i]) < len(calls):
                 res[i].append([9, 8])
-        return {"results": res, "sch": list(self.rec.sch), "status": status,
+        nthreads = n + (1 if post else 0)
+        stamps = [[list(map(list, ps)) for ps in self.rec.stamps.get(i, [])] for i in range(nthreads)]
+        return {"results": res, "sch": list(self.rec.sch), "status": status, "stamps": stamps,
                 "thread_exc": [(r[1], r[2]) for r in exc]}
 
     def cleanup(self):
@@ -687,15 +700,16 @@ class C19(Check):
         calls = self.calls_with_post(c)
         sch = obs["sch"]
         res = obs["results"]
+        st = obs.get("stamps", [])
         comp = c["comp"]
         if comp == "cache":
-            return sx([0, c["cap"], calls, sch, res])
+            return sx([0, c["cap"], calls, st, sch, res])
         if comp == "text":
-            return sx([1, [[list(p) for p in w] for w in c["contents"]], c["bad"], c["cache_enabled"], calls, sch, res])
+            return sx([1, [[list(p) for p in w] for w in c["contents"]], c["bad"], c["cache_enabled"], calls, st, sch, res])
         if comp == "store":
-            return sx([2, calls, sch, res])
+            return sx([2, calls, st, sch, res])
         ncalls = [len(l) for l in calls]
-        return sx([3, [[[list(p) for p in v] for v in f] for f in c["table"]], c["tree"], c["w0"], ncalls, sch, 1, res])
+        return sx([3, [[[list(p) for p in v] for v in f] for f in c["table"]], c["tree"], c["w0"], ncalls, st, sch, 1, res])
 
     def canon(self, obs):
         return [[list(r) for r in t] for t in obs["results"]]
